@@ -1116,6 +1116,18 @@ def check_C15(rep, fl):
                             ok = ok and must_pass_through(b, [ps[0][0]], from_bi=tgt)
         rep.check(ok, "R15.1", fl, b, "push(index)", "every lookup on an open cache records build_key(key).0 in the get buffer before consulting the store with the same (index, conflict)",
                   "the lookup does not record its key hash in the get buffer on every path (or looks up a different index)")
+    # R15.2 the pending batch is touched by the ring's constructor and push() only: nothing else drains, clears or
+    # replaces lookups that were recorded but not flushed yet (they are handed to the policy when the batch fills)
+    users = set()
+    for b_ in facts.bodies:
+        for bi_, si_, role_, pl_ in b_.place_uses():
+            if has_field(pl_, "data", fl.ring):
+                users.add(strip_generics(b_.raw["root"]))
+    extra = users - {fl.ring + "::new", fl.ring + "::push"}
+    if (fl.ring + "::push") not in users:
+        rep.missing("R15.2", fl, "no access to %s.data found in push()" % short(fl.ring))
+    rep.check(not extra, "R15.2", fl, fl.ring, "batch owners", "the pending batch (%s.data) is accessed by new() and push() only" % short(fl.ring),
+              "the pending lookups (%s.data) are also accessed by %s: recorded lookups can be discarded or reordered outside push()" % (short(fl.ring), sorted(short(u) for u in extra)))
     # R15.2 ring push
     rb = fl.code(fl.ring + "::push")
     at, entry = dataflow(rb)
